@@ -5,7 +5,8 @@ import math
 
 RULE = ("random polylines (degree 1, 1..5 segments, 2-D and 3-D, float data, uniform and non-uniform knots) with random points, points on the "
         "curve, points equidistant from two segments, points beyond the ends; random curves of degree 2..3 and rational arcs (soundness conditions "
-        "only); every call under a wall-clock cap.  Non-trivial: at least two segments or degree >= 2; distinct = distinct (curve, point).")
+        "only); every call under a wall-clock cap.  Non-trivial: at least two segments or degree >= 2; distinct = distinct (curve, point)."
+        " Also: far points whose two nearest candidates differ by about 3e-6 of the distance, single-span curves that clean() could reduce.")
 EXPLANATION = ("L3: the exact nearest-point oracle for polylines (`geom.nearest`, minimum of the per-segment quadratics over Q, proved optimal) gives "
                "the minimal distance; the returned tuple is checked for non-emptiness, order, range, equal distances (1e-6), minimality, "
                "stationarity of interior non-knot parameters (exact derivative via `rf.evalderiv`), termination and unchanged operands.")
